@@ -240,7 +240,7 @@ def ch_e2e(ctx) -> Channel:
     import segwalk
     import mp4walk
     ch = Channel("vod_e2e", rule=(
-        "every template x {vod, odvod} it supports x streams bbb, tears, syn1, syn2 x option subsets: every "
+        "every template x {vod, odvod} it supports x streams bbb, tears, syn1..syn4 (syn4: audio timing reference of 7.151746 s) x option subsets: every "
         "enumerated segment fetched (all numbers startNumber..startNumber+N-1, all timeline entries, all "
         "SegmentList ranges) plus the one past the end; statuses, decode times, durations, payloads and byte "
         "ranges checked against the stored files; non-trivial = fetched media segment/range; distinct by (url, rep, value)"))
@@ -250,7 +250,7 @@ def ch_e2e(ctx) -> Channel:
     now = datetime.datetime(2023, 5, 1, 12, 0, 3, tzinfo=datetime.timezone.utc)
     temps = vod_templates()
     cases = []
-    for stream in ("bbb", "tears", "syn1", "syn2", "syn3"):
+    for stream in ("bbb", "tears", "syn1", "syn2", "syn3", "syn4"):
         for name, mode in temps:
             opts = []
             if rng.random() < .5 and mode == "vod":
